@@ -344,3 +344,21 @@ def correspondence(ctx):
     _correspondence_without_tzfixed(ctx)
     import tzhelplib
     tzhelplib.validate_fixed(ctx)
+
+
+# --- tzical zones built from ONE-OFF components (wt-tzfile, seeded C04J): DTSTART-only and DTSTART + RDATE components (harness/icaloneoff.py)
+_oracle_without_ical_one_off = oracle
+_replay_without_ical_one_off = replay
+
+
+def oracle(ctx):
+    _oracle_without_ical_one_off(ctx)
+    import icaloneoff
+    icaloneoff.oracle(ctx)
+
+
+def replay(ctx, payload):
+    if payload["violation"]["case"].get("kind") == "ical-one-off":
+        import icaloneoff
+        return icaloneoff.replay(payload)
+    return _replay_without_ical_one_off(ctx, payload)
